@@ -288,6 +288,16 @@ class Interp:
                 continue
             if decided_by(cur.pc, cond) is False:
                 continue  # already excluded on this path (same guard raised earlier)
+            if isinstance(cond, tuple) and len(cond) == 4 and cond[0] == "cmp" and cond[1] in ("<", "<=", ">", ">=", "==", "!=") and is_c(cond[3]) and isinstance(cond[3][1], int) and not isinstance(cond[3][1], bool):
+                # interval reading of the guards (hull over disjunctions): len(m) in {159,165,168} excludes len(m) < 2
+                from .frames import int_bounds_from_guard
+                lo_, hi_ = int_bounds_from_guard(list(cur.pc), cond[2])
+                k_ = cond[3][1]
+                never = ((cond[1] == "<" and lo_ is not None and lo_ >= k_) or (cond[1] == "<=" and lo_ is not None and lo_ > k_)
+                         or (cond[1] == ">" and hi_ is not None and hi_ <= k_) or (cond[1] == ">=" and hi_ is not None and hi_ < k_)
+                         or (cond[1] == "==" and ((lo_ is not None and lo_ > k_) or (hi_ is not None and hi_ < k_))))
+                if never:
+                    continue
             r = cur.fork()
             del r.events[nev:]  # the operation raised before the later events happened
             r.pc.append(cond)
@@ -579,6 +589,30 @@ class Interp:
     def assign(self, tgt: ast.AST, v: Term, st: State, ctx: Ctx) -> None:
         if isinstance(tgt, ast.Name):
             st.env[tgt.id] = v
+        elif isinstance(tgt, (ast.Tuple, ast.List)) and any(isinstance(e, ast.Starred) for e in tgt.elts):
+            # a, *rest, z = value
+            k = next(i for i, e in enumerate(tgt.elts) if isinstance(e, ast.Starred))
+            before, star, after = tgt.elts[:k], tgt.elts[k], tgt.elts[k + 1:]
+            items = self.iter_items(v, st, ctx, tgt)
+            if items is not None:
+                if len(items) < len(before) + len(after):
+                    st.may_raise("ValueError", c(True), ctx.loc(tgt))
+                    items = items + [top("bad unpack")] * (len(before) + len(after) - len(items))
+                for t, x in zip(before, items):
+                    self.assign(t, x, st, ctx)
+                mid = items[len(before):len(items) - len(after)]
+                self.assign(star.value, st.alloc(HeapObj("list", None, {}, list(mid))), st, ctx)
+                for t, x in zip(after, items[len(items) - len(after):]):
+                    self.assign(t, x, st, ctx)
+            elif isinstance(v, tuple) and v and v[0] == "splitlist" and not after:
+                # head, *rest = s.split(sep): split never returns an empty list
+                if len(before) > 1:
+                    st.may_raise("ValueError", ("cmp", "<", ("nparts", v), c(len(before))), ctx.loc(tgt))
+                for i, t in enumerate(before):
+                    self.assign(t, ("seq", "s", (("txt", ("part", v, i)),)), st, ctx)
+                self.assign(star.value, ("splitrest", v, len(before)), st, ctx)
+            else:
+                raise AnalysisError(f"starred assignment of a value of unknown length at {ctx.loc(tgt)}")
         elif isinstance(tgt, (ast.Tuple, ast.List)):
             items = self.unpack(v, len(tgt.elts), st, ctx, tgt)
             for t, x in zip(tgt.elts, items):
@@ -820,6 +854,20 @@ class Interp:
             return None
         if itv[0] in ("clist", "cset"):
             return list(itv[1])
+        if itv[0] == "seq" and itv[1] == "raw":
+            # iterating a byte string of known length yields its bytes as integers
+            w_ = T.const_width(itv)
+            if w_ is not None and int(w_) % 2 == 0 and int(w_) <= 64:
+                out_: List[Term] = []
+                for i_ in range(int(w_) // 2):
+                    piece = T.slice_seq(itv, i_, i_ + 1)      # (slices of a raw value are indexed in bytes)
+                    if is_top(piece) or T.const_width(piece) != 2:
+                        return None
+                    out_.append(T.uint_of(piece[2]))
+                return out_
+        if itv[0] == "app" and itv[1] in ("time.localtime", "time.gmtime", "time.strptime"):
+            # a struct_time is the 9-tuple of its fields
+            return [("extmeth", itv, f) for f in ("tm_year", "tm_mon", "tm_mday", "tm_hour", "tm_min", "tm_sec", "tm_wday", "tm_yday", "tm_isdst")]
         if itv[0] == "cdict":
             return [k for k, _ in itv[1]]
         if itv[0] == "class" and itv[1].enum is not None:
@@ -975,6 +1023,31 @@ class Interp:
                 s2.pc.append(neg(ta) if is_or else ta)
                 out.extend(self.eval_forking(inner.values[1], s2, ctx))
             return out
+        if (isinstance(inner, ast.Call) and isinstance(inner.func, ast.Name) and inner.func.id in ("max", "min") and inner.func.id not in st.env
+                and len(inner.args) == 2 and not inner.keywords and not awaited and ctx.depth <= 2
+                and not any(isinstance(a, ast.Starred) for a in inner.args)):
+            # max(a, b) / min(a, b) of two symbolic numbers at statement level: the two cases are two paths, each with
+            # its comparison as a guard (max returns a when a >= b, min returns a when a <= b)
+            a_v, b_v = self.eval(inner.args[0], st, ctx), self.eval(inner.args[1], st, ctx)
+            if self.lib.is_int_term(a_v) and self.lib.is_int_term(b_v) and not (is_c(a_v) and is_c(b_v)):
+                out2: List[Tuple[State, Term, Any]] = []
+                for s_, sig_ in self._flush(st, ctx, inner):
+                    if sig_ is not None:
+                        out2.append((s_, top("raised"), sig_))
+                        continue
+                    cond = self.compare(ast.GtE() if inner.func.id == "max" else ast.LtE(), a_v, b_v, s_, ctx, inner)
+                    d = decided_by(s_.pc, cond) if not is_c(cond) else cond[1]
+                    if d is True:
+                        out2.append((s_, a_v, None))
+                    elif d is False:
+                        out2.append((s_, b_v, None))
+                    else:
+                        s2 = s_.fork()
+                        s_.pc.append(cond)
+                        s2.pc.append(neg(cond))
+                        out2.append((s_, a_v, None))
+                        out2.append((s2, b_v, None))
+                return out2
         if isinstance(inner, ast.Call) and _is_plain_ref(inner.func):
             fv = self.eval(inner.func, st, ctx)
             target = self.user_target(fv, st)
@@ -1307,8 +1380,11 @@ class Interp:
             return v
         if t == "sliceobj" and all(is_c(x) for x in v[1:]):
             return v
-        if t == "lambda" and len(v) == 5 and not v[4]:
-            return v      # a closure that captures nothing (operator.attrgetter("x") and the like)
+        if t == "lambda" and len(v) == 5 and isinstance(v[4], dict):
+            # a closure whose captured values are themselves constants (operator.attrgetter / itemgetter objects)
+            cap = {k: self.reify(x, st) for k, x in v[4].items() if k.startswith("$")}
+            if all(x is not None for x in cap.values()) and not any(not k.startswith("$") for k in v[4]):
+                return (v[0], v[1], v[2], v[3], cap)
         return None
 
     # ------------------------------------------------------------------
@@ -1383,6 +1459,12 @@ class Interp:
 
     def getattr(self, base: Term, attr: str, st: State, ctx: Ctx, node: ast.AST) -> Term:
         t = base[0]
+        if t == "structobj" and attr in ("size", "format") and is_c(base[1]) and isinstance(base[1][1], str):
+            import struct as _struct
+            try:
+                return c(_struct.calcsize(base[1][1])) if attr == "size" else base[1]
+            except _struct.error:
+                pass
         if t == "module":
             r = self.prog.resolve_name(base[1], attr)
             if r is None:
@@ -1676,6 +1758,18 @@ class Interp:
             ast.Eq: "==", ast.NotEq: "!=", ast.Lt: "<", ast.LtE: "<=", ast.Gt: ">", ast.GtE: ">=",
             ast.Is: "is", ast.IsNot: "is not", ast.In: "in", ast.NotIn: "not in",
         }[type(op)]
+        if name in ("==", "!=") and a[0] == "tuple" and b[0] == "tuple":
+            if len(a[1]) != len(b[1]):
+                return c(name == "!=")
+            parts_ = [self.compare(ast.Eq(), x, y, st, ctx, node) for x, y in zip(a[1], b[1])]
+            eq_ = conj(parts_)
+            return eq_ if name == "==" else neg(eq_)
+        for x_, y_ in ((a, b), (b, a)):
+            # an unsigned number read from w hex digits equals k  <=>  those digits are the w-digit hex text of k
+            if name in ("==", "!=") and isinstance(x_, tuple) and x_[:1] == ("uint",) and is_c(y_) and isinstance(y_[1], int) and not isinstance(y_[1], bool):
+                w_ = T.const_width(("seq", "s", x_[1]))
+                if w_ is not None and 0 <= y_[1] < 16 ** int(w_):
+                    return self.compare(op, ("seq", "s", x_[1]), c(format(y_[1], f"0{int(w_)}x")), st, ctx, node)
         a2, b2 = self.canon_cmp_operand(a, st), self.canon_cmp_operand(b, st)
         # a raw byte string compared with literal bytes: bring the literal to the raw (hex nibble) form too
         if T.is_seq(a) and T.is_seq(a2) and a[1] == "raw" and is_c(b) and isinstance(b[1], bytes):
